@@ -17,8 +17,13 @@
 
 /* well-formed aio: the entry count respects the array (nni_aio_set_iov, unit aioiov/aio_set_iov) */
 #define VP_WF_E(a, j) ((j) >= (a)->a_nio || (a)->a_iov[j].iov_len <= VIOV_LENMAX)
+/* VP_NIO_CAP: bounded units restrict the vectors of the aios at the head of a queue to at most
+ * that many entries (any of them may be empty); default = the whole array */
+#ifndef VP_NIO_CAP
+#define VP_NIO_CAP NNI_AIO_MAX_IOV
+#endif
 #define VP_AIO_WF(a)                                                                        \
-	((a)->a_nio <= NNI_AIO_MAX_IOV && VP_WF_E(a, 0) && VP_WF_E(a, 1) && VP_WF_E(a, 2) &&    \
+	((a)->a_nio <= VP_NIO_CAP && VP_WF_E(a, 0) && VP_WF_E(a, 1) && VP_WF_E(a, 2) &&    \
 	    VP_WF_E(a, 3) && VP_WF_E(a, 4) && VP_WF_E(a, 5) && VP_WF_E(a, 6) && VP_WF_E(a, 7))
 
 /* ---- loop invariants (woven) --------------------------------------------- */
@@ -38,13 +43,15 @@
 	            ? (g_fin_last_rv == 0 && g_fin_last_count == g_sys.ok_count0 + (size_t) g_sys.ok_ret) \
 	            : (g_fin_last_rv == (int) NNG_ECONNSHUT && g_fin_last_count == 0)))
 /* g_sys is one assigns target: the fields these loops never write keep their values */
-#define VP_SYS_REST_SAME (VP_D(g_start_calls) == 0 && VP_D(g_arm_calls) == 0 && VP_D(g_pfd_close_calls) == 0 && VP_D(g_pfd_stop_calls) == 0 && VP_D(g_dialcb_calls) == 0)
+#define VP_SYS_REST_SAME (VP_D(g_start_calls) == 0 && VP_D(g_arm_calls) == 0 && VP_D(g_pfd_close_calls) == 0 && VP_D(g_pfd_stop_calls) == 0 && VP_D(g_dialcb_calls) == 0 && \
+	g_start_aio == LE(g_start_aio) && g_start_fn == LE(g_start_fn) && g_start_arg == LE(g_start_arg) && g_arm_events == LE(g_arm_events) && g_arm_pfd == LE(g_arm_pfd))
 #define VP_XFER_INV(q)                                                                        \
 	(VP_SYS_REST_SAME && (q).s.n <= LE((q).s.n) && VP_D(g_pops) == LE((q).s.n) - (q).s.n && VP_D(g_fin_calls) == VP_D(g_pops) && \
 	    VP_D(g_sys.n_ok) == VP_D(g_pops) && VP_D(g_sys.n_again) == 0 && VP_D(g_sys.n_err) == 0 && \
 	    VP_D(g_sys.calls) == VP_D(g_sys.n_ok) + VP_D(g_sys.n_intr) &&                            \
 	    (VP_D(g_pops) == 0 ? ((q).s.orig == LE((q).s.orig)) : !(q).s.orig) &&                        \
 	    (VP_D(g_fin_calls) > 0 ==> VP_FIN_IS_OK_CALL) &&                                       \
+	    ((VP_D(g_pops) == 1 && LE((q).s.orig) && LE((q).s.n) > 0) ==> g_pop_last == (q).first) &&  \
 	    ((q).s.n == 0 || ((q).s.orig ? (VP_AIO_WF((q).first) && (q).first->a_count == vp_c0) : VP_AIO_WF((q).later))))
 /* error / close loops: every removal is followed by the completion of that aio with the code */
 #define VP_DRAIN_INV(code)                                                                    \
